@@ -6,6 +6,7 @@ import Dawgs.Model.CyEval
 import Dawgs.Model.SqlEval
 import Dawgs.Model.GraphGen
 import Dawgs.Model.C01
+import Dawgs.Model.C01S2
 /-! C01 semantic-search driver (suite `c01sem`, also used by C02).
 
 Input: `sem <gseed> <nrandom> <exN> <exE> <kindmap> <params> <cypher sexp> <sql sexp>` — the parsed Cypher model and the REAL emitted
@@ -360,8 +361,8 @@ def dbgStep (_ : Unit) (ts : List String) : Unit × String :=
     | _ => ((), "bad-op")
   | _ => ((), "bad-op")
 
-/-- tie 1 (model = code on the fragment): for a parsed query inside S1 the REAL statement must equal `tr q` (and carry no parameters).
-Then the theorem's prediction is run: on every generated graph that satisfies the hypothesis `GraphOK` (checked by `graphOKb`) the two
+/-- tie 1 (model = code on the fragment): for a parsed query inside S1 or S2a the REAL statement must equal `tr2 q` (and carry no parameters).
+Then the theorem's prediction is run: on every generated graph that satisfies the hypothesis (`GraphOK` by `graphOKb` for S1, `GraphOK2` by `graphOK2b` for S2a) the two
 evaluators must agree (or the SQL model stops with `unmodelled`); graphs outside the hypothesis are evaluated too and only counted. -/
 def tieStep (_ : Unit) (ts : List String) : Unit × String :=
   match ts with
@@ -371,12 +372,18 @@ def tieStep (_ : Unit) (ts : List String) : Unit × String :=
     | some [.atom "sem", .atom gs, .atom nr, .atom en, .atom ee, kmS, pS, cyS, sqlS] =>
       match kindMapOf kmS, ReadCy.query cyS, SqlSexp.stmt sqlS with
       | some km, .ok q, .ok s =>
-        match C01.ofCy q with
+        -- which stage does the parsed query belong to, and is its Cypher reading the parsed query itself?
+        let stage : Option (String × Bool × Bool) := match C01.ofCy q with
+          | some s1 => some ("S1", s1.toCy == q, s1.wf)
+          | none => match C01.ofCy2 q with
+            | some s2 => some ("S2a", s2.toCy == q, s2.wf)
+            | none => none
+        match stage with
         | none => ((), "outside-fragment")
-        | some s1 =>
-          if !(s1.toCy == q) then ((), "tie-differs cypher-reading-of-fragment-term-is-not-the-parsed-query") else
-          if !s1.wf then ((), "outside-fragment return-alias-shadows-the-variable-under-order-by") else
-          match C01.tr km q with
+        | some (stg, reading, wf) =>
+          if !reading then ((), "tie-differs cypher-reading-of-fragment-term-is-not-the-parsed-query") else
+          if !wf then ((), "outside-fragment not-well-formed-for-" ++ stg) else
+          match C01.tr2 km q with
           | none => ((), "tie-differs model-translator-rejects-a-translated-query")
           | some (st, ps) =>
             if !((paramsOf pS).map (·.length) == some ps.length) then ((), "tie-differs real-translation-has-parameters") else
@@ -387,14 +394,16 @@ def tieStep (_ : Unit) (ts : List String) : Unit × String :=
               | some gseed, some nrandom, some exN, some exE =>
                 let graphs := graphsFor gseed nrandom exN exE
                 let ordered := !q.ret.orderBy.isEmpty
-                let inHyp := graphs.filter (C01.graphOKb km)
-                let outHyp := graphs.filter (fun g => !C01.graphOKb km g)
+                -- the hypothesis of the stage's theorem: `GraphOK` for S1, `GraphOK2` for S2a
+                let hypB := fun (g : Graph) => if stg == "S1" then C01.graphOKb km g else C01.graphOK2b km g
+                let inHyp := graphs.filter hypB
+                let outHyp := graphs.filter (fun g => !hypB g)
                 let outsIn := inHyp.map (compareOn km [] q s ordered [])
                 let outsOut := outHyp.map (compareOn km [] q s ordered [])
                 let isAgree := fun (o : Outcome) => match o with | .agree => true | _ => false
                 let isUsql := fun (o : Outcome) => match o with | .unmodelledSql _ => true | _ => false
                 let bad := outsIn.filter (fun o => !(isAgree o || isUsql o))
-                let counts := s!"graphs={graphs.length} hyp={inHyp.length} agree={(outsIn.filter isAgree).length} usql={(outsIn.filter isUsql).length} outside-hyp={outHyp.length} outside-hyp-agree={(outsOut.filter isAgree).length}"
+                let counts := s!"stage={stg} graphs={graphs.length} hyp={inHyp.length} agree={(outsIn.filter isAgree).length} usql={(outsIn.filter isUsql).length} outside-hyp={outHyp.length} outside-hyp-agree={(outsOut.filter isAgree).length}"
                 if bad.isEmpty then ((), s!"tie-ok {counts}")
                 else ((), s!"tie-proof-mismatch {counts} {summarize bad}")
               | _, _, _, _ => ((), "bad-op")
